@@ -72,10 +72,11 @@ class EnumV:
 
 
 class Cell:
-    __slots__ = ('v',)
+    __slots__ = ('v', 'moved')
 
     def __init__(s, v):
         s.v = v
+        s.moved = False
 
 
 class CellRef:
